@@ -429,13 +429,33 @@ func genC08Scan(rng *rand.Rand) string {
 
 // ---- destination sets
 
-type plainSet struct{ calls []string }
+type plainSet struct {
+	calls []string
+	// the records as they were handed over (they are the set's from then on), rendered once more
+	// when Parse has returned
+	kept   []*hostsfile.Record
+	keptAt []string
+}
+
+// lateChange reports a record that no longer shows what it showed when it was added.
+func (s *plainSet) lateChange() string {
+	for i, r := range s.kept {
+		if now := showRecCall(r); now != s.keptAt[i] {
+			return fmt.Sprintf("record %d was added as %s and reads %s after Parse has returned", i, s.keptAt[i], now)
+		}
+	}
+	return ""
+}
 
 func showRecCall(rec *hostsfile.Record) string {
 	return fmt.Sprintf("A(%s;%s;%s)", showAddrGo(rec.Addr), hx([]byte(rec.Source)), showNamesGo(rec.Names))
 }
 
-func (s *plainSet) Add(rec *hostsfile.Record) { s.calls = append(s.calls, showRecCall(rec)) }
+func (s *plainSet) Add(rec *hostsfile.Record) {
+	s.calls = append(s.calls, showRecCall(rec))
+	s.kept = append(s.kept, rec)
+	s.keptAt = append(s.keptAt, showRecCall(rec))
+}
 
 type handleSet struct {
 	plainSet
@@ -479,6 +499,7 @@ func collectLineErrs(err error, out *[]*hostsfile.LineError) {
 }
 
 type parseOutcome struct {
+	late      string // a record that changed after it had been added ("" = none)
 	impl      string
 	added     []string // A(...) calls
 	invalid   []invalidCall
@@ -503,6 +524,7 @@ func runParse(hs bool, named bool, name string, readErr bool, stream []byte, mod
 	if hs {
 		dst := &handleSet{}
 		err = hostsfile.Parse(dst, src, buf)
+		o.late = dst.lateChange()
 		o.invalid = dst.invalid
 		o.impl = "calls=[" + strings.Join(dst.calls, " ") + "]"
 		for _, c := range dst.calls {
@@ -513,6 +535,7 @@ func runParse(hs bool, named bool, name string, readErr bool, stream []byte, mod
 	} else {
 		dst := &plainSet{}
 		err = hostsfile.Parse(dst, src, buf)
+		o.late = dst.lateChange()
 		o.impl = "calls=[" + strings.Join(dst.calls, " ") + "]"
 		o.added = dst.calls
 	}
@@ -596,6 +619,9 @@ func evalC08Parse(f []string) Result {
 	bufs := [][]byte{nil, make([]byte, 0, 16), make([]byte, 0, 4096)}
 	for i, mode := range fragModes {
 		o := runParse(hs, named, name, readErr, stream, mode, seed+uint64(i), bufs[i%len(bufs)])
+		if o.late != "" && direct == "ok" {
+			direct = c07fail("record-changed-later", "reader mode %q: %s", mode, o.late)
+		}
 		if i == 0 {
 			first = o
 		} else if o.impl != first.impl && direct == "ok" {
@@ -747,9 +773,21 @@ func evalC08Store(f []string) Result {
 			direct = s
 		}
 	}
+	// The records are built the way a caller that avoids allocations builds them: ONE Record value
+	// is reused for every Add, and the Names slices are consecutive pieces of one backing array,
+	// so each has spare capacity that the next record's names occupy.  Nothing is ever written
+	// to a slice after it has been handed to Add.
+	namePool := make([]string, 0, 1<<16)
+	reused := &hostsfile.Record{}
 	for si, step := range steps {
 		i := step.idx
-		rec := &hostsfile.Record{Addr: step.addr, Names: slices.Clone(step.names)}
+		start := len(namePool)
+		namePool = append(namePool, step.names...)
+		rec := reused
+		if si%3 == 2 {
+			rec = &hostsfile.Record{}
+		}
+		rec.Addr, rec.Names, rec.Source = step.addr, namePool[start:len(namePool)], fmt.Sprintf("src-%d", si)
 		fullObs := func() string {
 			return observeGo(st[i], qa, qn) + fmt.Sprint(st[i].Equal(st[1-i]), st[1-i].Equal(st[i]), st[i].Equal(twin[i]), twin[i].Equal(st[i]))
 		}
